@@ -3127,7 +3127,7 @@ class Engine:
                 for s4, flow in self.ex_block(stmt.body, s3):
                     if flow is None or flow[0] == 'continue':
                         for_lemmas(s4, i + 1)
-                        self.check_loop_object_writes(st, s4, stmt)
+                        self.check_loop_object_writes(entry, s4, stmt)
                         self.oblige(s4, f'inv-preserved(loop{ordn})',
                                     lspec.invariant(self.loop_ctx(s4, entry, {'i': i + 1, 'iter': itd})), stmt)
                     elif flow[0] == 'break':
